@@ -68,10 +68,21 @@ def s2_tasks(tier):
             for win in WINDOWS:
                 for ch in kernel.chunks(list(win), 8):
                     ts.append(dict(ref=s[0], dir=d, gaps=ch))
+    # constants used like labels: %offset(K) / %position(K, b) / bare K with K a constant (position-dependent but label-free operands)
+    for base in (0x40, 0x7f0, 0x1000, 0x12345):
+        ts.append(dict(kind='constref', base=base))
     return ts
 
 
 def s2_programs(task):
+    if task.get('kind') == 'constref':
+        for d in range(0, 24, 2):
+            for n in range(0, 6):
+                k = L.const('K', hex(task['base'] + d), task['base'] + d)
+                pad = [progs.I('addi', rd=8, rs1=8, imm=1)] * n
+                for s in progs.LABELARITH:
+                    yield [k] + pad + [s[1]('K'), L.align(4), progs.I('add', rd=5, rs1=6, rs2=7)]
+        return
     sym = {s[0]: s for s in progs.LABELARITH}[task['ref']]
     for gapn in task['gaps']:
         for bname, between in BETWEEN.items():
@@ -81,7 +92,7 @@ def s2_programs(task):
 
 def describe(tier):
     return ('S1: all closed programs of <= %d lines over the alphabet; S2: %d referrer kinds x 2 directions x %d between-sequences x 2 prefixes x every gap in '
-            '0..39, 2020..2063, 4080..4111, 6130..6159 and 64 KiB / 74573 / 1 MiB' % (depth(tier), len(progs.LABELARITH), len(BETWEEN)))
+            '0..39, 2020..2063, 4080..4111, 6130..6159 and 64 KiB / 74573 / 1 MiB; the same referrers with a CONSTANT as the referenced name (4 bases x 12 phases x 0..5 compressible instructions in front)' % (depth(tier), len(progs.LABELARITH), len(BETWEEN)))
 
 
 DRIVERS = {'prog_case': layoutrun.prog_case(__name__)}
